@@ -60,7 +60,9 @@ def runTrace : IO UInt32 := do
         | some ("reportFlush", v) => u := { u with reportFlush := v == "1" }
         | some ("keepUnreported", v) => u := { u with keepUnreported := v == "1" }
         | some ("flushInvalid", v) => u := { u with flushInvalid := v == "1" }
+        | some ("follow", v) => u := { u with follow := v == "1" }
         | some ("replayCatch", v) => u := { u with replayCatch := v == "1" }
+        | some ("flushBeforeErase", v) => u := { u with flushBeforeErase := v == "1" }
         | _ => pure ()
     | "cfg" :: rest =>
       for x in rest ++ Drv.words obsS do
@@ -68,8 +70,12 @@ def runTrace : IO UInt32 := do
         | some ("grace", v) => u := { u with grace := nat! v * 1000 }
         | some ("soft", v) => u := { u with soft := nat! v }
         | some ("hard", v) => u := { u with hard := nat! v }
-        | some ("variant", v) => u := { u with dropping := (nat! v) % 2 == 1 }
+        | some ("variant", v) =>
+          let isU := decide (2 ≤ nat! v)
+          u := { u with dropping := (nat! v) % 2 == 1, unbounded := isU }
+        | some ("qmax", v) => u := { u with qmax := nat! v }
         | some ("qcap", v) => u := { u with qcap := nat! v }
+        | some ("flushint", v) => u := { u with flushInt := nat! v * 1000000 }
         | _ => pure ()
     | "sink" :: sid :: rest =>
       let mut k : Sink := { sid := nat! sid }
